@@ -6,7 +6,7 @@ ERRNO = ["-include", "$VERIF/include/verif_errno_shim.h"]
 GROUPS = []
 for gran in (1, 2, 4):
   GROUPS.append(G("pb_ProcessFile_data_g%d" % gran, SRC, "h_ProcessFile_data", enforce=[], dfcc=False, defs=["-DVERIF_GRAN=%d" % gran], link=["toolutils.c", "as_endian.c", "bpemu.c"], loops=True,
-                  unwind=12, unwindset=["ProcessFile.0:3"], timeout=900, cflags=ERRNO, functions=["ProcessFile"], object_bits=12,
+                  unwind=12, unwindset=["ProcessFile.0:3"], timeout=600, cflags=ERRNO, functions=["ProcessFile"], object_bits=12, split=12, flags=["--slice-formula"],
                   bounded="input = one data record (any CPU, segment, granularity 1/2/4, address, length; copy loop under loop contract) + end record; byte mode ALL"))
 TRUSTED_BASE = ["stubs/gfile.c ghost stdio model", "FilterOK and AddChunk observed/oracle (FilterOK is under contract in C07)"]
 ASSUMPTIONS = ["record addresses do not wrap around 2^32", "granularity byte is 1, 2 or 4"]
